@@ -34,6 +34,8 @@ func forall(lo, hi int, p func(i int) bool) bool {
 func all(x interface{}) bool   { return true }
 func elems(x interface{}) bool { return true }
 func fresh(x interface{}) bool { return true }
+func envFailed() bool          { return false }
+func ghostFail() bool          { return true }
 func sameSlice(a, b []byte) bool {
 	if len(a) != len(b) || cap(a) != cap(b) {
 		return false
@@ -128,6 +130,13 @@ func SpecVhash(v []byte) uint16 {
 // solvers cannot derive it (induction over the FNV fold), so the assumed codec contracts state it.
 func QlzVhash(c []byte) uint16 { return 0 }
 
+//@ func QlzD
+//@   uninterpreted byte i of the reference decompression of a QuickLZ stream
+//@ func QlzValid
+//@   uninterpreted the stream was produced by a QuickLZ level-3 compressor
+//@ func QlzVhash
+//@   uninterpreted value hash of the reference decompression of the stream
+
 //@ func headerLen
 //@   props C10
 //@   ints bv
@@ -164,11 +173,13 @@ func QlzVhash(c []byte) uint16 { return 0 }
 //@ func CCompress
 //@   props C10 C12
 //@   ints bv
-//@   opaque QlzD spec_quicklz_QlzD QlzValid spec_quicklz_QlzValid QlzVhash spec_quicklz_QlzVhash
 //@   assumed cgo qlz_compress (C code, unsafe pointers): output is a well-formed QuickLZ stream of at most len(src)+400 bytes whose decompression is src
-//@   requires len(src) >= 1 && len(src) < 1<<31
-//@   modifies cmem.AllocRL.Size, cmem.AllocRL.MaxSize, cmem.AllocRL.Count, cmem.AllocRL.MaxCount
+//@   requires len(src) < 1<<31
+//@   modifies cmem.AllocRL.Size, cmem.AllocRL.MaxSize, cmem.AllocRL.Count, cmem.AllocRL.MaxCount, ghostFail()
 //@   ensures cmem.AllocRL.Count == old(cmem.AllocRL.Count)+allocCount(dst.Addr) && cmem.AllocRL.Size == old(cmem.AllocRL.Size)+allocSize(dst.Addr, dst.Cap)
+//@   ensures len(src) == 0 ==> !ok && dst.Addr == 0 && envFailed() == old(envFailed())
+//@   ensures !ok ==> dst.Addr == 0 || envFailed()      // scratch malloc may fail after dst was charged (environment failure only)
+//@   ensures ok ==> envFailed() == old(envFailed())
 //@   ensures ok ==> dst.Cap == len(src)+400 && len(dst.Body) <= len(src)+400 && fresh(dst.Body)
 //@   ensures ok ==> SpecHeaderOK(dst.Body) && SpecSizeC(dst.Body) == len(dst.Body) && SpecSizeD(dst.Body) == len(src)
 //@   ensures ok ==> QlzValid(dst.Body) && forall(0, len(src), func(i int) bool { return QlzD(dst.Body, i) == src[i] })
@@ -177,12 +188,12 @@ func QlzVhash(c []byte) uint16 { return 0 }
 //@ func CDecompress
 //@   props C10 C12
 //@   ints bv
-//@   opaque QlzD spec_quicklz_QlzD QlzValid spec_quicklz_QlzValid QlzVhash spec_quicklz_QlzVhash
 //@   assumed cgo qlz_decompress (C code, unsafe pointers, no bounds checks on src): fills a fresh buffer of sizeD bytes with the decompression of src or reports a size mismatch
 //@   requires len(src) >= 1 && sizeD >= 0
-//@   modifies cmem.AllocRL.Size, cmem.AllocRL.MaxSize, cmem.AllocRL.Count, cmem.AllocRL.MaxCount
+//@   modifies cmem.AllocRL.Size, cmem.AllocRL.MaxSize, cmem.AllocRL.Count, cmem.AllocRL.MaxCount, ghostFail()
 //@   ensures cmem.AllocRL.Count == old(cmem.AllocRL.Count)+allocCount(dst.Addr) && cmem.AllocRL.Size == old(cmem.AllocRL.Size)+allocSize(dst.Addr, dst.Cap)
 //@   ensures len(dst.Body) == 0 || len(dst.Body) == sizeD   // also on failure: nothing allocated, or the untruncated buffer
+//@   ensures err != nil ==> dst.Addr == 0                     // a failed decompression leaves no buffer charged
 //@   ensures err == nil ==> len(dst.Body) == sizeD && dst.Cap == sizeD && fresh(dst.Body)
 //@   ensures err == nil ==> forall(0, sizeD, func(i int) bool { return dst.Body[i] == QlzD(src, i) })
 //@   ensures err == nil && sizeD == SpecSizeD(src) ==> SpecVhash(dst.Body) == QlzVhash(src)
@@ -196,11 +207,12 @@ func QlzVhash(c []byte) uint16 { return 0 }
 //@ func CDecompressSafe
 //@   props C10 C12
 //@   ints bv
-//@   opaque QlzD spec_quicklz_QlzD QlzValid spec_quicklz_QlzValid QlzVhash spec_quicklz_QlzVhash
 //@   assumed panic/recover path (index panic on inputs shorter than their header) is not modelled by govc; non-panicking paths verified separately (see comment). NOT covered and in fact false: memory safety of the C decoder on malformed streams (quicklz.h has QLZ_MEMORY_SAFE commented out; SIGSEGV observed)
-//@   modifies cmem.AllocRL.Size, cmem.AllocRL.MaxSize, cmem.AllocRL.Count, cmem.AllocRL.MaxCount
+//@   modifies cmem.AllocRL.Size, cmem.AllocRL.MaxSize, cmem.AllocRL.Count, cmem.AllocRL.MaxCount, ghostFail()
 //@   ensures cmem.AllocRL.Count == old(cmem.AllocRL.Count)+allocCount(dst.Addr) && cmem.AllocRL.Size == old(cmem.AllocRL.Size)+allocSize(dst.Addr, dst.Cap)
 //@   ensures len(dst.Body) == 0 || (SpecHeaderOK(src) && len(dst.Body) == SpecSizeD(src))
+//@   ensures err != nil ==> dst.Addr == 0
+//@   ensures err != nil && QlzValid(src) && SpecHeaderOK(src) && len(src) == SpecSizeC(src) ==> envFailed()   // a valid stream fails only for lack of memory
 //@   ensures err == nil ==> SpecHeaderOK(src) && len(src) == SpecSizeC(src)
 //@   ensures err == nil ==> len(dst.Body) == SpecSizeD(src) && dst.Cap == SpecSizeD(src) && fresh(dst.Body)
 //@   ensures err == nil ==> forall(0, SpecSizeD(src), func(i int) bool { return dst.Body[i] == QlzD(src, i) })
@@ -209,7 +221,6 @@ func QlzVhash(c []byte) uint16 { return 0 }
 //@ func Compress
 //@   props C10
 //@   ints bv
-//@   opaque QlzD spec_quicklz_QlzD QlzValid spec_quicklz_QlzValid QlzVhash spec_quicklz_QlzVhash
 //@   assumed Go port of the QuickLZ compressor (400 lines of bit packing): output is a well-formed stream; at level 3 its reference decompression is source (bounded differential test, 3000 random inputs)
 //@   requires (level == 1 || level == 3) && len(source) < 1<<31
 //@   ensures len(source) == 0 ==> result0 == nil
@@ -220,7 +231,6 @@ func QlzVhash(c []byte) uint16 { return 0 }
 //@ func Decompress
 //@   props C10
 //@   ints bv
-//@   opaque QlzD spec_quicklz_QlzD QlzValid spec_quicklz_QlzValid QlzVhash spec_quicklz_QlzVhash
 //@   assumed Go port of the QuickLZ decompressor: every normal return yields a fresh buffer of the announced size (both return statements); agrees with the reference decompression on valid streams; may panic (index out of range, unsupported level) on anything else
 //@   may_panic
 //@   requires SpecHeaderOK(source)
@@ -234,7 +244,6 @@ func QlzVhash(c []byte) uint16 { return 0 }
 //@ func DecompressSafe
 //@   props C10
 //@   ints bv
-//@   opaque QlzD spec_quicklz_QlzD QlzValid spec_quicklz_QlzValid QlzVhash spec_quicklz_QlzVhash
 //@   assumed deferred recover handler uses a comma-ok type assertion (unsupported by govc) and panic/recover paths are not modelled; clauses read off the code: both error returns precede/follow the two checks
 //@   ensures err == nil ==> SpecHeaderOK(src) && len(src) == SpecSizeC(src)
 //@   ensures err == nil ==> len(dst) == SpecSizeD(src)
@@ -255,9 +264,9 @@ func lemmaGoCompressCDecompress(src []byte) (d cmem.CArray, err error) {
 //@ func lemmaGoCompressCDecompress
 //@   props C10
 //@   ints bv
-//@   opaque QlzD spec_quicklz_QlzD QlzValid spec_quicklz_QlzValid QlzVhash spec_quicklz_QlzVhash SpecFnv1a spec_utils_SpecFnv1a
+//@   opaque SpecFnv1a
 //@   requires len(src) >= 1 && len(src) < 1<<31
-//@   modifies cmem.AllocRL.Size, cmem.AllocRL.MaxSize, cmem.AllocRL.Count, cmem.AllocRL.MaxCount
+//@   modifies cmem.AllocRL.Size, cmem.AllocRL.MaxSize, cmem.AllocRL.Count, cmem.AllocRL.MaxCount, ghostFail()
 //@   ensures err == nil ==> len(d.Body) == len(src) && SpecVhash(d.Body) == SpecVhash(src)
 //@   ensures err == nil ==> forall(0, len(src), func(i int) bool { return d.Body[i] == src[i] })
 
@@ -274,9 +283,9 @@ func lemmaCCompressGoDecompress(src []byte) (out []byte, ok bool) {
 //@ func lemmaCCompressGoDecompress
 //@   props C10
 //@   ints bv
-//@   opaque QlzD spec_quicklz_QlzD QlzValid spec_quicklz_QlzValid QlzVhash spec_quicklz_QlzVhash SpecFnv1a spec_utils_SpecFnv1a
+//@   opaque SpecFnv1a
 //@   requires len(src) >= 1 && len(src) < 1<<31-400
-//@   modifies cmem.AllocRL.Size, cmem.AllocRL.MaxSize, cmem.AllocRL.Count, cmem.AllocRL.MaxCount
+//@   modifies cmem.AllocRL.Size, cmem.AllocRL.MaxSize, cmem.AllocRL.Count, cmem.AllocRL.MaxCount, ghostFail()
 //@   ensures ok ==> len(out) == len(src) && SpecVhash(out) == SpecVhash(src)
 //@   ensures ok ==> forall(0, len(src), func(i int) bool { return out[i] == src[i] })
 //@   ensures ok ==> cmem.AllocRL.Count == old(cmem.AllocRL.Count) && cmem.AllocRL.Size == old(cmem.AllocRL.Size)
